@@ -126,6 +126,62 @@ def ref_conservative(name, T, prop):
     return None
 
 
+def ref_instance(name, T):
+    """For a constant that is already declared: it must be overloaded, the new type must instantiate every type variable of the
+    overloaded type with a type constructor application, and no instance with the same head constructors may be declared yet
+    (read from the library files of the theories in scope, not from the theory object)."""
+    if not theory.thy.has_term_sig(name):
+        return None
+    if not theory.thy.is_overload_const(name):
+        return 'the constant is already declared'
+    aT = theory.thy.get_term_sig(name, stvar=True)
+    try:
+        inst = aT.match(T)
+    except Exception:
+        return 'the type is not an instance of the overloaded type'
+    heads = []
+    for _, v in sorted(inst.items()):
+        if not v.is_tconst():
+            return 'instance of an overloaded constant at a type variable'
+        heads.append(v.name)
+    for T2 in DECLARED_INSTANCES.get(name, []):
+        try:
+            inst2 = aT.match(T2)
+        except Exception:
+            continue
+        if [v.name for _, v in sorted(inst2.items()) if v.is_tconst()] == heads:
+            return 'this instance of the overloaded constant is already declared'
+    return None
+
+
+DECLARED_INSTANCES = {}
+
+
+def scan_declared_instances(thy_names):
+    """(name -> types) of the non-generic declarations of constants in the given library theories and their imports."""
+    DECLARED_INSTANCES.clear()
+    seen = set()
+
+    def visit(n):
+        if n in seen:
+            return
+        seen.add(n)
+        try:
+            data = json.load(open(os.path.join(REPO, 'library', n + '.json'), encoding='utf-8'))
+        except Exception:
+            return
+        for m in data.get('imports', []):
+            visit(m)
+        for it in data.get('content', []):
+            if it.get('ty') in ('def', 'def.ax', 'def.ind', 'def.pred') and 'name' in it and 'type' in it and not it.get('overloaded'):
+                try:
+                    DECLARED_INSTANCES.setdefault(it['name'], []).append(parser.parse_type(it['type']))
+                except Exception:
+                    pass
+    for n in thy_names:
+        visit(n)
+
+
 def parse_def_prop(name, T, prop_str):
     with context.fresh_context(defs={name: T}):
         return parser.parse_term(prop_str)
@@ -142,6 +198,16 @@ def judge_definition(run, data, where, exprs, meta):
         run.stat('parse_escaped:' + type(e).__name__)
         return
     accepted = d.error is None
+    ext_err = None
+    if accepted:
+        # accepted as a definition = parsed without error AND its extensions are admitted by the theory
+        try:
+            copy.copy(theory.thy).checked_extend(d.get_extension())
+        except RecursionError:
+            raise
+        except Exception as e:
+            accepted, ext_err = False, '%s: %s' % (type(e).__name__, str(e)[:120])
+            run.stat('extension_refused:' + type(e).__name__)
     run.stat('impl_accepts' if accepted else 'impl_rejects')
     try:
         T = parser.parse_type(data['type'])
@@ -155,6 +221,9 @@ def judge_definition(run, data, where, exprs, meta):
                           key='C11:accept-unparsable')
         return
     reason = ref_conservative(data['name'], T, prop)
+    inst_reason = ref_instance(data['name'], T)
+    if reason is None and inst_reason is not None:
+        reason = inst_reason
     if accepted and reason is not None:
         run.violation('property', 'non-conservative definition accepted (%s): %s' % (reason, data['prop']),
                       dict(item=data, where=where, reason=reason, parsed=repr(prop),
@@ -218,6 +287,15 @@ OVERLOADED = [
     ("zero", "'a list", "(0::'a list) = [(0::'a)]", 'circular: occurrence at the bare type variable'),
     ("zero", "nat list", "(0::nat list) = [(0::nat)]", 'good: ground, disjoint'),
     ("zero", "'a list list", "(0::'a list list) = [(0::'a list)]", 'circular: occurrence at a more general type'),
+    # instances that must not be (re)declared
+    ("plus", "'a => 'a => 'a", "(x::'a) + y = x", 'instance at a type variable'),
+    ("less", "'a => 'a => bool", "(x::'a) < y <--> false", 'instance at a type variable'),
+    ("zero", "'a", "(0::'a) = (SOME x. true)", 'instance at a type variable'),
+    ("plus", "nat => nat => nat", "(x::nat) + y = x", 'instance already declared'),
+    ("times", "nat => nat => nat", "(x::nat) * y = 0", 'instance already declared'),
+    ("less", "nat => nat => bool", "(x::nat) < y <--> false", 'instance already declared'),
+    ("length", "'a list => nat", "length (xs::'a list) = 0", 'constant already declared (not overloaded)'),
+    ("plus", "bool => bool => bool", "(x::bool) + y <--> x", 'good: new instance'),
 ]
 
 
@@ -526,6 +604,7 @@ def run_check(tier, seed):
     # ---- instances of overloaded constants over theory list
     try:
         context.set_context('list')
+        scan_declared_instances(['list'])
         n_before = len(meta)
         for cname, ty, prop, comment in OVERLOADED + gen_overloaded(r, 40 if tier == 'quick' else 600):
             judge_definition(run, dict(ty='def', name=cname, type=ty, prop=prop), 'generated overloaded instance (%s)' % comment, exprs, meta)
@@ -551,6 +630,9 @@ def run_check(tier, seed):
                               dict(correspondence='C11/overlap', item=data, model_code=code, reference_accepts=ref_acc), failing_input=False)
         if code == 3:
             run.stat('overlap_fuel_exhausted')
+            continue
+        if reason is not None and ('overloaded constant' in reason or 'already declared' in reason or 'not an instance' in reason):
+            run.stat('instance_rule_cases')          # existing declarations are not part of the model
             continue
         model_acc = (code == 1)
         if model_acc != accepted:
